@@ -445,6 +445,10 @@ func (w *world) last() int { return len(w.steps) - 1 }
 // pick: a port of the allowed range that had no purpose in this case yet (explicit ports are chosen
 // right before their first use, so a server-chosen port of an earlier registration is never hit)
 func (w *world) pick() int {
+	// a registration that is still in flight (held at a gate) may have been given a port meanwhile
+	for _, p := range append(usedPorts(w.rc.TCPPortManager), usedPorts(w.rc.UDPPortManager)...) {
+		w.taken[p] = true
+	}
 	for _, p := range w.allow {
 		if !w.taken[p] {
 			w.taken[p] = true
@@ -613,12 +617,24 @@ func (w *world) newProxy(c int, q preq, o npOpts) int {
 		return -99
 	}
 	code := respCode(q, resp)
-	w.recordNew(c, q, code, resp.Error, true, w.observe())
+	w.recordNew(c, q, code, resp.Error, true, w.observe(), "")
 	return code
 }
 
-// recordNew: emit the SNewProxy step
-func (w *world) recordNew(c int, q preq, code int, errText string, addok bool, obs string) {
+// reservedPort: the port the manager remembers for a proxy name (Acquire records it before the listen)
+func (w *world) reservedPort(q preq) (int, bool) {
+	var r map[string]int
+	if q.kind == "udp" {
+		_, _, r = w.rc.UDPPortManager.VerifSnapshot()
+	} else {
+		_, _, r = w.rc.TCPPortManager.VerifSnapshot()
+	}
+	p, ok := r[q.name]
+	return p, ok
+}
+
+// recordNew: emit the SNewProxy step.  choice = the oracle value if the caller knows it better ("" = derive it)
+func (w *world) recordNew(c int, q preq, code int, errText string, addok bool, obs string, choiceIs string) {
 	if code == -98 {
 		w.rec.fail("unknown-error-text:"+w.label, "NewProxyResp.Error not classified: "+errText, strings.Join(w.steps, "; "))
 	}
@@ -627,17 +643,14 @@ func (w *world) recordNew(c int, q preq, code int, errText string, addok bool, o
 		if code > 0 {
 			choice = fmt.Sprintf("(Some %d)", code)
 		} else if code == -5 {
-			// the port the failed listen was attempted on: Acquire recorded it in the reserved table
-			var r map[string]int
-			if q.kind == "udp" {
-				_, _, r = w.rc.UDPPortManager.VerifSnapshot()
-			} else {
-				_, _, r = w.rc.TCPPortManager.VerifSnapshot()
-			}
-			if p, ok := r[q.name]; ok {
+			// the port the failed listen was attempted on
+			if p, ok := w.reservedPort(q); ok {
 				choice = fmt.Sprintf("(Some %d)", p)
 			}
 		}
+	}
+	if choiceIs != "" {
+		choice = choiceIs
 	}
 	if code >= 0 {
 		w.oks++
